@@ -24,7 +24,8 @@ RULE = ("Streams of 1..8 well-formed frames of every kind (both generations) are
         "(stream, cut set, gap policy).")
 ASSUMPTIONS = ["SimTransport.peer_data == one TCP segment arriving (data_received call)",
                "baseline cross-checked against refproto's frame count/order"]
-REQUIRED_OBS = ["segmentations_ok", "cuts_inside_header", "cuts_inside_crc", "byte_at_a_time"]
+REQUIRED_OBS = ["segmentations_ok", "cuts_inside_header", "cuts_inside_crc", "byte_at_a_time",
+                "slow_subscriber_runs"]
 BUDGET = {"quick": 100, "thorough": 1500}
 
 GAPS = ["same_turn", "turn1", "turn3", "quiesce", "delay"]
@@ -56,10 +57,12 @@ def streams(gen):
 _BASE = {}
 
 
-def deliver(gen, stream, cuts, gap, debug=False):
+def deliver(gen, stream, cuts, gap, debug=False, delays=None):
     """Deliver `stream` cut at `cuts`; returns (deliveries, closed, errors, status)."""
     async def main(loop, net, log):
         w = SockWorld(gen, loop, net, log)
+        if delays:
+            w.msg_delays = list(delays)
         await w.open()
         c = net.current()
         pos = [0] + list(cuts) + [len(stream)]
@@ -77,6 +80,8 @@ def deliver(gen, stream, cuts, gap, debug=False):
                 await quiesce(loop)
             elif gap == "delay":
                 await asyncio.sleep(0.25)
+        if delays:
+            await asyncio.sleep(sum(delays) + 1.0)
         await quiesce(loop)
         closed = (not c.open) or len(net.conns) != 1
         out = [describe(h, m) for _, h, m in w.msgs]
@@ -115,6 +120,12 @@ def cases(tier, seed):
                    "cuts": [list(range(1, n))]}  # byte at a time
             yield {"k": "cuts", "gen": gen, "stream": sname, "gap": "turn1",
                    "cuts": [list(range(1, n))]}
+            # a subscriber that is slow for some messages: many frames in one segment must
+            # still be handed over one after the other, in order
+            for delays in ([0.3, 0.0, 0.2, 0.0, 0.1, 0.0, 0.0, 0.0], [0.0, 0.5, 0.0, 0.0],
+                           [0.05] * 8):
+                yield {"k": "cuts", "gen": gen, "stream": sname, "gap": "same_turn",
+                       "cuts": [[], [n // 2]], "delays": delays}
             if not full:
                 continue
             ones = [[i] for i in range(1, n)]
@@ -178,7 +189,9 @@ def run_case(case):
     decided = 0
     for cuts in case["cuts"]:
         out, closed, errs, status = deliver(gen, stream, cuts, case["gap"],
-                                            case.get("debug", False))
+                                            case.get("debug", False), case.get("delays"))
+        if case.get("delays"):
+            obs["slow_subscriber_runs"] = obs.get("slow_subscriber_runs", 0) + 1
 
         def v(mech, **d):
             viol.append({"mechanism": mech,
